@@ -391,6 +391,10 @@ def step (s : St) (line : String) : IO St := do
       else if form == "ref64" then do let r ← diffRef64 c uRng FUEL (s.get (N i)) (s.get (N j)); pure (r, [])
       else diffRefE c (c.W == 64) uRng FUEL (s.get (N i)) (s.get (N j))
     s.runSetE s!"dif:{form}" (N k) act (toks2nats ds) ir (if form == "ref64" then none else (splitA pre).2)
+  | "dbg" :: i :: name :: rest =>
+    let want := debugStr c name (s.get (N i))
+    let got := " ".intercalate (name :: rest)
+    if want == got then pure (s.bump "op:dbg") else s.fail s!"Debug: model {want.take 120} impl {got.take 120}"
   | "hash" :: i :: _n :: xs => cmpList s "hash" (hashInput c (s.get (N i))) (toks2nats xs)
   | "toarr" :: i :: _n :: xs => cmpList s s!"toarr:{layoutTag c (s.get (N i))}" (toArray c (s.get (N i))) (toks2nats xs)
   | "fromarr" :: k :: n :: rest =>
